@@ -31,6 +31,8 @@ func runC10(c *an.Ctx) {
 	// round 7: shared with C01 (a failed requested transition ends the run through GO_ERROR) and C14 (run variables are user-rank variables of the root)
 	c.As(map[string]string{"R01f": "R10h"}, func() { r01f(c) })
 	c.As(map[string]string{"R14a": "R10i"}, func() { r14a(c) })
+	// round 8
+	r10j(c)
 }
 
 // R10g: "values of a previous run are never visible in the next": the run variables handed to the tasks with START are
